@@ -7,15 +7,17 @@
 (* (reading item->_obj after the mutex was dropped, `delete item`, blocker.notify_all()) is its own step too.            *)
 (*                                                                                                                    *)
 (*   ref_acquire  (expirecontainer.cpp:83-121)                                                                          *)
-(*     ALock    :90-106  find-or-insert, _list.pop, `if (_recycle) blocker.wait(_lock) else _refcnt++`                  *)
-(*                       (blocker.wait(_lock) enqueues and releases _lock atomically: established by C03)                *)
+(*     AcquireCall / ALock :90-106  find-or-insert, _list.pop, `if (_recycle) blocker.wait(_lock) else _refcnt++`         *)
+(*                       (the call itself is a local step, so it is merged with the first section; ALock is the same       *)
+(*                       section re-executed after a wake-up; blocker.wait(_lock) enqueues and releases _lock atomically:  *)
+(*                       established by C03)                                                                            *)
 (*     AMtx     :109-112 lock item->_mtx (blocking), `!_obj && _failure <= sat_sub(now, cooldown)` ? construct : unlock  *)
 (*     ACtorEnd :112-114 the constructor returns (ok | fail); `_failure = now` on failure; unlock _mtx                   *)
 (*                       (a slow / yielding / sleeping constructor = any number of other actions between AMtx and here)  *)
 (*     APost    :116-120 read item->_obj OUTSIDE the mutex: return the item, or ref_release(item,false,true) + nullptr   *)
-(*   release(key) (:160-170)  RFind  look the item up by key under _lock, then ref_release without the lock              *)
+(*   release(key) (:160-170)  ReleaseByKey: look the item up by key under _lock, then ref_release without the lock (RCs)  *)
 (*   ref_release  (:123-157)                                                                                            *)
-(*     RCs      :128-141 demote a second recycler, set _recycle, _refcnt--, last one signals the recycler or             *)
+(*     ReleaseByItem / RCs :128-141 demote a second recycler, set _recycle, _refcnt--, last one signals the recycler or  *)
 (*                       `_failure = 0; enqueue(item)` (fresh deadline now + lifespan, tail of the list)                 *)
 (*     RSem     :144     sem.wait(1)   (blocking)                                                                       *)
 (*     RErase   :146-148 _set.erase(item) under _lock                                                                   *)
@@ -48,7 +50,7 @@ CONSTANTS Threads, Keys, MaxAcq, MaxItems, Lifespan, MaxNow, CoolDowns, NumLimit
 \*   "nopark" ref_acquire ignores a pending recycle                          -> recycler erases an item just re-acquired
 \*   "nomtx"  no per-item mutex                                               -> two constructors of one key at once
 \*   "early"  every release signals a pending recycler, not only the last     -> handed over / destroyed while borrowed
-\*   "sticky" the last release does not clear _failure and the test is `<`    -> (used by the witness configuration)
+\*   "sticky" the last release does not clear _failure and the test is `<`    -> construction skipped with no failure in reach
 None == 0           \* no item / no key
 NoT == "none"       \* no thread (Threads are model values)
 Items == 1..MaxItems
